@@ -20,11 +20,21 @@ import (
 )
 
 type remote struct {
-	d   *duplex
-	m   *meter
-	key []byte
-	buf []byte // bytes of the node not yet parsed
+	d    *duplex
+	m    *meter
+	key  []byte
+	buf  []byte          // bytes of the node not yet parsed
+	stop <-chan struct{} // aborts waits (default: the watchdog's signal)
 }
+
+func (r *remote) stopCh() <-chan struct{} {
+	if r.stop != nil {
+		return r.stop
+	}
+	return r.m.stop
+}
+
+func decodeRLP(b []byte, v interface{}) error { return rlp.DecodeBytes(b, v) }
 
 // nextPacket waits for one whole packet (magic, length, body) from the node.
 func (r *remote) nextPacket() ([]byte, bool) {
@@ -38,7 +48,7 @@ func (r *remote) nextPacket() ([]byte, bool) {
 				return body, true
 			}
 		}
-		if !r.d.waitUntil(func(d *duplex) bool { return len(d.out) > 0 }, r.m.stop) {
+		if !r.d.waitUntil(func(d *duplex) bool { return len(d.out) > 0 }, r.stopCh()) {
 			return nil, false
 		}
 	}
@@ -73,6 +83,11 @@ type pipeOpt struct {
 	// incomplete: the raw bytes end inside a frame; the remote then stays silent until the node's read
 	// deadline passes (modelled: the deadline fires once the node waits for bytes that do not come)
 	incomplete bool
+	// write faults: faultHS - the node's protocol handshake cannot be written; fault - nothing can be
+	// written from the moment the remote sends msgs; after: what the remote does then
+	faultHS error
+	fault   error
+	after   string // "silent" (until the node's read deadline passes) | "hangup" | "more-requests"
 }
 
 func playPipe(m *meter, opt pipeOpt) string {
@@ -154,9 +169,15 @@ func playPipe(m *meter, opt pipeOpt) string {
 	}
 	runEnd = make(chan *panicInfo, 1)
 	hpEnd = make(chan *panicInfo, 1)
+	if opt.faultHS != nil {
+		d.failWrites(opt.faultHS)
+	}
 	spawn("c15:Peer.Run", func() { peer.Run() }, runEnd)
 	np := network.VerifC15NewPeer(peer)
 	spawn("c15:handlePeer", func() { network.VerifC15HandlePeer(c.pm, np) }, hpEnd)
+	if opt.faultHS != nil || opt.fault != nil {
+		return finish(playFault(m, r, opt))
+	}
 	// the node's protocol handshake
 	code, _, ok := r.nextMsg()
 	if !ok || code != 0x02 {
@@ -218,6 +239,52 @@ func playPipe(m *meter, opt pipeOpt) string {
 		out += "/asked-for-blocks"
 	}
 	return finish(out)
+}
+
+// playFault: the remote's part of a connection on which the node's writes fail.
+func playFault(m *meter, r *remote, opt pipeOpt) string {
+	d := r.d
+	if opt.faultHS == nil {
+		code, _, ok := r.nextMsg()
+		if !ok || code != 0x02 {
+			return "NO-PROTOCOL-HANDSHAKE"
+		}
+		d.send(frame(r.key, opt.hsCode, opt.hsPayload))
+		d.failWrites(opt.fault)
+		for _, w := range opt.msgs {
+			d.send(frame(r.key, w.code, w.payload))
+		}
+	} else {
+		// the node's first write fails; the remote sends its own handshake all the same
+		d.send(frame(r.key, opt.hsCode, opt.hsPayload))
+	}
+	// wait for the failed write (or for the node to give up the connection without writing)
+	d.waitUntil(func(d *duplex) bool { return d.failedWrite > 0 }, m.stop)
+	failed := d.failedWrite
+	switch opt.after {
+	case "hangup":
+		d.closeRemote()
+	case "more-requests":
+		for i := 0; i < 3; i++ {
+			d.send(frame(r.key, 0x04, enc(&network.GetLatestStatus{})))
+		}
+		fallthrough
+	default:
+		// silent: the node's read deadline passes once it waits for bytes that do not come
+		if d.waitUntil(func(d *duplex) bool { return d.waiting > 0 && len(d.in) == 0 }, m.stop) {
+			d.fireDeadline()
+		}
+	}
+	// the statement: at worst the node drops the connection. Wait for that.
+	d.waitUntil(func(d *duplex) bool { return false }, m.stop)
+	out := "write-failed/dropped"
+	if failed == 0 {
+		out = "no-write/dropped"
+	}
+	if !d.closedByNode() {
+		out += "/NOT-CLOSED"
+	}
+	return out
 }
 
 func aesOpen(key, body []byte) ([]byte, error) {
@@ -342,6 +409,32 @@ func pipeFamilies(w *world) []*Family {
 			emit(func() Case { return pipe(fmt.Sprintf("pipe/after-handshake/short-plaintext=%d", l), pipeOpt{hsCode: 0x02, hsPayload: hs.payload, rawK: func(key []byte) [][]byte {
 				return [][]byte{framePlain(key, make([]byte, l))}
 			}}) })
+		}
+	})
+	add("write-fault", 1500, func(th bool, emit func(func() Case)) {
+		// every request that makes the node write, with the write failing
+		faults := []struct {
+			n string
+			e error
+		}{{"broken-pipe", errBrokenPipe}, {"deadline", errTimeout}}
+		for _, f := range faults {
+			for _, after := range []string{"silent", "hangup", "more-requests"} {
+				emit(func() Case {
+					return pipe(fmt.Sprintf("pipe/write-fault/protocol-handshake/%s/then-%s", f.n, after), pipeOpt{hsCode: 0x02, hsPayload: hs.payload, faultHS: f.e, after: after})
+				})
+				for _, s := range w.samples()[1:] {
+					// the requests the node answers or reacts to by writing; "tx" stands for the others (the
+					// first failing write is a heartbeat then, 5 real seconds later)
+					switch s.name {
+					case "get-status", "hash-unknown", "status-ahead", "get-blocks", "get-block", "orphan", "two", "get-confirms", "get-confirms-by-height", "discover-req", "get-blocks-logs", "tx":
+					default:
+						continue
+					}
+					emit(func() Case {
+						return pipe(fmt.Sprintf("pipe/write-fault/%s/%s/then-%s", s.name, f.n, after), pipeOpt{hsCode: 0x02, hsPayload: hs.payload, msgs: []wire{{s.code, s.payload}}, fault: f.e, after: after})
+					})
+				}
+			}
 		}
 	})
 	return fams
